@@ -276,6 +276,8 @@ def check_general_form_point(ctx, res, rule: str) -> int:
             return deg(e.operand, depth + 1)
         if isinstance(e, ast.Starred):
             return deg(e.value, depth + 1)
+        if isinstance(e, ast.Subscript):
+            return deg(e.value, depth + 1)
         if isinstance(e, ast.BinOp):
             l, r = deg(e.left, depth + 1), deg(e.right, depth + 1)
             if l is None or r is None:
@@ -297,10 +299,21 @@ def check_general_form_point(ctx, res, rule: str) -> int:
             if isinstance(f, ast.Name) and f.id in ("Vector", "Point"):
                 ds = {deg(a, depth + 1) for a in e.args}
                 return ds.pop() if len(ds) == 1 else None
+            def solve_deg(call_):
+                # solve([[c1, c2, c3, rhs]]): the solution scales like rhs / coefficients
+                if call_.args and isinstance(call_.args[0], ast.List) and len(call_.args[0].elts) == 1 and isinstance(call_.args[0].elts[0], ast.List) \
+                        and len(call_.args[0].elts[0].elts) >= 2:
+                    row_ = call_.args[0].elts[0].elts
+                    cs_ = {deg(x_, depth + 1) for x_ in row_[:-1]}
+                    r_ = deg(row_[-1], depth + 1)
+                    if len(cs_) == 1 and None not in cs_ and r_ is not None:
+                        return r_ - cs_.pop()
+                    return None
+                return None
             if isinstance(f, ast.Name) and f.id == "solve":
-                return 0
+                return solve_deg(e)
             if isinstance(f, ast.Name) and f.id in defs and isinstance(defs[f.id], ast.Call) and txt(defs[f.id].func) == "solve":
-                return 0  # solution(1, 1): a point of the solution set
+                return solve_deg(defs[f.id])  # solution(1, 1): a point of the solution set
             if isinstance(f, ast.Attribute) and f.attr in ("normalized", "unit") and not e.args:
                 return 0 if deg(f.value, depth + 1) is not None else None
             if isinstance(f, ast.Attribute) and f.attr == "length" and not e.args:
